@@ -105,7 +105,7 @@ func (v DenseReal64Vector) APPEND(w DenseReal64Vector) DenseReal64Vector {
   return append(v, w...)
 }
 func (v DenseReal64Vector) ToDenseReal64Matrix(n, m int) *DenseReal64Matrix {
-  if n*m != len(v) {
+  if n < 0 || m < 0 || n*m != len(v) {
     panic("Matrix dimension does not fit input vector!")
   }
   matrix := DenseReal64Matrix{}
